@@ -128,6 +128,30 @@ func (g *gen) probes(t *progen.Type, n int) string {
 	pair("assign2")
 	w("\temit(\"define\", %s)", S("c"))
 	w("}")
+	w("{ // := that redeclares a variable assigns to it (tuple on the right: lookup, assertion, receive, call)")
+	w("\ta := %s(1)", MK)
+	w("\tp := &a")
+	w("\ta, ok1 := map[string]%s{\"k\": %s(2)}[\"k\"]", T, MK)
+	w("\t%s(p, 3)", MUT)
+	w("\temit(\"redecl-map\", %s+btoa(ok1)+btoa(p == &a))", S("a"))
+	w("\tb := %s(1)", MK)
+	w("\tq := &b")
+	w("\tb, ok2 := interface{}(%s(4)).(%s)", MK, T)
+	w("\t%s(q, 5)", MUT)
+	w("\temit(\"redecl-assert\", %s+btoa(ok2)+btoa(q == &b))", S("b"))
+	w("\tc := %s(1)", MK)
+	w("\tr := &c")
+	w("\tch := make(chan %s, 1)", T)
+	w("\tch <- %s(6)", MK)
+	w("\tc, ok3 := <-ch")
+	w("\t%s(r, 7)", MUT)
+	w("\temit(\"redecl-recv\", %s+btoa(ok3)+btoa(r == &c))", S("c"))
+	w("\td := %s(1)", MK)
+	w("\ts := &d")
+	w("\td, n4 := func() (%s, int) { return %s(8), 4 }()", T, MK)
+	w("\t%s(s, 9)", MUT)
+	w("\temit(\"redecl-call\", %s+itoa(n4)+btoa(s == &d))", S("d"))
+	w("}")
 	w("{ // swap and multi-assign")
 	w("\ta, b := %s(1), %s(2)", MK, MK)
 	w("\ta, b = b, a")
